@@ -127,6 +127,15 @@ CLAIMED = {
                      "argument over the call graph, not a discharged obligation. PlaneDistanceMatching's corner ranking (numpy) and the end-to-end agreement of lists, scores, AP/APH and CLEAR "
                      "are bounded: native harness evaluating 40 random scenes per run in both renderings. Registry contract assumed here (X -> X identity), proved for TransformDict under C18.",
                 ref="5/C07"),
+    "C16": dict(text="Relative to nuscenes-devkit modelled as an abstract database (records = functions of (table, token, field); the boxes of a sample data token are two lists the devkit "
+                     "determines), the real glue code is verified for all databases: _get_sample_boxes (BASE_LINK -> ego-frame list, MAP -> global list, else ValueError); "
+                     "_convert_nuscenes_box_to_dynamic_object (instance id, time stamp, frame id, the box's own centre / size / orientation, the annotation's lidar point count, label and "
+                     "visibility as handed in, tracking data only in tracking tasks); _sample_to_frame (loop invariant: one object per box in order, each built from its own annotation "
+                     "record — instance token, visibility level or None when the table is empty —, sample time stamp and name, LIDAR_TOP else LIDAR_CONCAT else ValueError).",
+                note="The devkit's geometry (ego-frame boxes = global boxes moved by the inverse ego pose), the transforms, _load_dataset's sample order, tracking history and the converted "
+                     "label's value (C14) are NOT proved here: bounded native harness that generates T4-format dataset directories, loads them with the real load_all_datasets (both frame ids, "
+                     "detection / tracking / sensing, merge on/off) and compares every frame and object with the generator's tables (12 datasets per run). Constructors of DynamicObject / Shape / "
+                     "FrameGroundTruth are assumed to store their arguments.", ref="5/C16"),
     "C19": dict(text="The per-object status tallies are verified for all lists of frame results: GroundTruthStatus.__init__ (five new, separate, empty lists), add_status "
                      "(the frame number goes to `total` and to exactly the list of its status), get_object_status (nested loops over the four pass/fail lists with "
                      "loop invariants over ghost counts: for an arbitrary uuid u, an entry exists iff some TP / FP-labelled matched FP / TN / FN item carries u, it is unique, "
@@ -160,7 +169,6 @@ def main():
     json.dump(m, open(os.path.join(HERE, "MANIFEST.json"), "w"), indent=1)
 
 NA = {
- "C16": "the loader is glue around nuscenes-devkit and file I/O; pose semantics and table reading are the devkit's, no contract within reach",
 }
 if __name__ == "__main__":
     main()
